@@ -67,7 +67,7 @@ func TestVerifC19RegistryStorm(t *testing.T) {
 		defer runtime.GOMAXPROCS(runtime.GOMAXPROCS(4))
 	}
 	rnd := run.Rand("storm")
-	rounds := run.Pick(30000, 300000)
+	rounds := run.Pick(20000, 300000)
 	base := "tunnox.net"
 	start := time.Now()
 
@@ -207,7 +207,7 @@ func TestVerifC19RegistryStorm(t *testing.T) {
 			run.Sample(map[string]any{"name": full, "claimants": g, "overlapping": overl, "winner": win})
 		}
 	}
-	run.Floor("rounds", int64(run.Pick(30000, 300000)))
-	run.Floor("rounds_single_winner", int64(run.Pick(29000, 290000)))
-	run.Floor("rounds_with_overlapping_claims", int64(run.Pick(3000, 30000)))
+	run.Floor("rounds", int64(run.Pick(20000, 300000)))
+	run.Floor("rounds_single_winner", int64(run.Pick(19000, 290000)))
+	run.Floor("rounds_with_overlapping_claims", int64(run.Pick(2000, 30000)))
 }
